@@ -148,3 +148,25 @@ func hash64(s string) uint64 {
 func hkey(parts ...any) string {
 	return fmt.Sprintf("%016x", hash64(fmt.Sprint(parts...)))
 }
+
+// mixCases spreads nb "batch" cases evenly among na ordinary cases, so that a wall-clock budget cuts both kinds
+// proportionally. It maps case index i to (isBatch, index within its kind).
+func mixCases(nb, na, i int) (bool, int) {
+	if nb <= 0 {
+		return false, i
+	}
+	total := nb + na
+	stride := total / nb
+	if stride < 1 {
+		stride = 1
+	}
+	if i%stride == 0 && i/stride < nb {
+		return true, i / stride
+	}
+	// number of batch slots at positions <= i
+	b := i/stride + 1
+	if b > nb {
+		b = nb
+	}
+	return false, i - b
+}
